@@ -18,7 +18,7 @@ import (
 // C19 — `updog create` ingests a CSV faithfully in both modes: the real binary is run on every CSV of a finite
 // space and its output index compared with the model.
 
-var c19Headers = []string{"A", "b c", "x1", "É", "", "Ab"}
+var c19Headers = []string{"A", "b c", "x1", "É", "", "Ab", "k", "home_city"}
 var c19Fields = []string{"", "a", "a,b", "q\"q", "l1\nl2", "é"}
 
 // normHeader re-implements the naming rule from the property statement.
